@@ -88,9 +88,9 @@ def param_variants(name):
         elif isinstance(v, float):
             cands = [v / 2, v * 0.9, v * 1.5, v * 2, 0.05, 0.1, 0.25, 0.35, 0.45, 0.5, 0.7, 0.9, 1.0, 1.5, 2.0]
         elif isinstance(v, list) and v and all(isinstance(x, (int, float)) and not isinstance(x, bool) for x in v):
-            cands = [[x * 0.5 for x in v], [x * 2 for x in v]]
+            cands = [[x * 0.5 for x in v], [x * 2 for x in v], list(reversed(v))]
             if all(isinstance(x, int) for x in v):
-                cands = [[max(1, x // 2) for x in v], [x * 2 for x in v]]
+                cands = [[max(1, x // 2) for x in v], [x * 2 for x in v], list(reversed(v))]
         for c in cands:
             if c == v:
                 continue
